@@ -41,6 +41,7 @@ def worker_init():
 
 _calls = [0]
 _held = []
+_forms = [0]
 
 
 def orig_env():
@@ -234,7 +235,9 @@ def check_case(case):
         if rule == 'sd':
             opts['sd_thresh'] = par
         elif rule == 'rilling':
-            opts['rilling_thresh'] = par
+            # (the triple is handed over as a tuple, a list or an array in turn: all are documented forms)
+            _forms[0] += 1
+            opts['rilling_thresh'] = (par, list(par), np.array(par))[_forms[0] % 3]
         if energy is not None:
             opts['energy_thresh'] = energy
         tag = '%s stop=%s%r step=%.3g max_iters=%d interp=%s pad=%d energy=%r' % (d, rule, par, step, max_iters, method, pad, energy)
@@ -314,6 +317,21 @@ def check_case(case):
             if not input_final:
                 viols.append(('harness:extrema-count', '%s: envelope stage and own extrema counter disagree' % tag))
 
+    if case[0] in ('fb', 'fa') and not input_final:
+        # every option omitted: the documented defaults (SD rule with threshold 0.1, full step, 1000 iterations,
+        # cubic-spline envelopes, two padding extrema) govern
+        seq0 = Seq(X, 'splrep', 2, 1.0)
+        ev0, idx0, margin0 = predict(seq0, 'sd', 0.1, 1000)
+        if margin0 >= 1e-9 and ev0 in ('stop', 'vanish'):
+            try:
+                imf0, _ = get_next_imf(X.copy())
+                want0 = seq0.items[idx0][3] if ev0 == 'stop' else seq0.h[idx0]
+                trans += 1
+                if np.asarray(imf0).shape != (N, 1) or not np.max(np.abs(np.asarray(imf0) - want0)) <= scale:
+                    viols.append(('defaults', '%s: get_next_imf(x) with every option omitted differs from the reference under the documented defaults by %.3g' % (
+                        d, np.max(np.abs(np.asarray(imf0) - want0)) if np.asarray(imf0).shape == (N, 1) else -1)))
+            except Exception as e:
+                viols.append(('defaults:raise:%s' % type(e).__name__, '%s: get_next_imf(x) raised %r' % (d, e)))
     if case[0] == 'fbl' and case[4] >= 10:
         seq = Seq(X, ENVS[0][0], ENVS[0][1], 1.0)
         for n_ in (64, 65, 129, 200, 400):
